@@ -12,35 +12,35 @@ import (
 type Kind string
 
 const (
-	KStruct   Kind = "struct"    // named struct (value); carries H in unexported field v
-	KPtr      Kind = "ptr"       // *Base
-	KIface    Kind = "iface"     // named interface with method H<Name>() uint64
-	KNamedStr Kind = "namedstr"  // type X string (H hex-encoded)
-	KNamedInt Kind = "namedint"  // type X int64
-	KSlice    Kind = "slice"     // []Base
-	KMap      Kind = "map"       // map[string]Base
-	KFunc     Kind = "func"      // func() Base
-	KArray    Kind = "array"     // [2]Base
+	KStruct   Kind = "struct"     // named struct (value); carries H in unexported field v
+	KPtr      Kind = "ptr"        // *Base
+	KIface    Kind = "iface"      // named interface with method H<Name>() uint64
+	KNamedStr Kind = "namedstr"   // type X string (H hex-encoded)
+	KNamedInt Kind = "namedint"   // type X int64
+	KSlice    Kind = "slice"      // []Base
+	KMap      Kind = "map"        // map[string]Base
+	KFunc     Kind = "func"       // func() Base
+	KArray    Kind = "array"      // [2]Base
 	KAnon     Kind = "anonstruct" // struct{ <Name> uint64 }
-	KBasic    Kind = "basic"     // string, int, int64, uint64
-	KCtx      Kind = "ctx"       // context.Context
-	KRaw      Kind = "raw"       // static only: arbitrary expression, no identity
+	KBasic    Kind = "basic"      // string, int, int64, uint64
+	KCtx      Kind = "ctx"        // context.Context
+	KRaw      Kind = "raw"        // static only: arbitrary expression, no identity
 )
 
 // Type is one Go type usable as provider input/output.
 type Type struct {
-	ID      int
-	Kind    Kind
-	Name    string  // named kinds: type name; KAnon: field name; KBasic: builtin name
-	Pkg     string  // "" = main package of the program; otherwise the sibling package's directory (ExtPkg.Dir)
-	Base    int     // KPtr/KSlice/KMap/KFunc/KArray: element type id
-	Fields  []Field // KStruct: exported fields (expansion candidates)
-	Impl    []int   // KStruct: interface ids implemented
-	PtrRecv bool    // KStruct: methods have pointer receivers (only *S implements)
-	Pure    bool    // KStruct: no identity field; identity always derives from the fields (wire.Struct targets)
-	Raw     string  // KRaw: the Go expression (main-package view)
-	RawDecl string  // KRaw: declarations to add to types.go (may be empty)
-	BaseVar string  // KRaw: expected variable base name (informational)
+	ID       int
+	Kind     Kind
+	Name     string   // named kinds: type name; KAnon: field name; KBasic: builtin name
+	Pkg      string   // "" = main package of the program; otherwise the sibling package's directory (ExtPkg.Dir)
+	Base     int      // KPtr/KSlice/KMap/KFunc/KArray: element type id
+	Fields   []Field  // KStruct: exported fields (expansion candidates)
+	Impl     []int    // KStruct: interface ids implemented
+	PtrRecv  bool     // KStruct: methods have pointer receivers (only *S implements)
+	Pure     bool     // KStruct: no identity field; identity always derives from the fields (wire.Struct targets)
+	Raw      string   // KRaw: the Go expression (main-package view)
+	RawDecl  string   // KRaw: declarations to add to types.go (may be empty)
+	BaseVar  string   // KRaw: expected variable base name (informational)
 	RawNames []string // KRaw: distinctive identifiers occurring in the expression
 }
 
@@ -64,26 +64,26 @@ const (
 )
 
 type Prov struct {
-	ID      int
-	Kind    ProvKind
-	Fn      string // function name (PFunc)
-	Pkg     string // "" or sibling package of the function
-	Params  []int
-	Results []int // non-error results
-	Err     bool
-	Async   bool
-	Binds   []int  // interface type ids (Bind wrappers)
-	BindOut bool   // true: Bind(Async(Provide)), false: Async(Bind(Provide))
-	Lit     bool   // expression is a function literal forwarding to Fn
-	ValExpr string // PValue: Go expression
-	ValH    uint64 // PValue: H of the expression's value
-	Variadic bool  // last parameter (a slice type) is declared variadic
+	ID          int
+	Kind        ProvKind
+	Fn          string // function name (PFunc)
+	Pkg         string // "" or sibling package of the function
+	Params      []int
+	Results     []int // non-error results
+	Err         bool
+	Async       bool
+	Binds       []int    // interface type ids (Bind wrappers)
+	BindOut     bool     // true: Bind(Async(Provide)), false: Async(Bind(Provide))
+	Lit         bool     // expression is a function literal forwarding to Fn
+	ValExpr     string   // PValue: Go expression
+	ValH        uint64   // PValue: H of the expression's value
+	Variadic    bool     // last parameter (a slice type) is declared variadic
 	ParamSpell  []string // optional per-parameter spelling of the SAME type (through an alias, with alias type arguments); "" = default
 	ResultSpell []string // likewise for results
-	TypeAlias string // PStruct: Struct[<alias>]() where `type <alias> = T` (declared in ExtraDecl); same type, other spelling
-	AsmFields []string // PAssemble: listed field names ("*" = all)
-	IfaceVal bool // PValue (wire only): wire.InterfaceValue(new(Binds[0]), expr)
-	Decoy    bool // emitted as a function but part of no declaration (must never run)
+	TypeAlias   string   // PStruct: Struct[<alias>]() where `type <alias> = T` (declared in ExtraDecl); same type, other spelling
+	AsmFields   []string // PAssemble: listed field names ("*" = all)
+	IfaceVal    bool     // PValue (wire only): wire.InterfaceValue(new(Binds[0]), expr)
+	Decoy       bool     // emitted as a function but part of no declaration (must never run)
 }
 
 // Item is either a provider reference or a set reference.
@@ -108,29 +108,29 @@ type Injector struct {
 }
 
 type Spec struct {
-	Name      string // package directory / program name
-	PkgName   string // Go package name
-	Types     []*Type
-	Provs     []*Prov
-	Sets      []*SetDef
-	Injectors []*Injector
-	Files     []string // names of the declaration files (kessoku.go, ...)
-	Features  []string
-	ExtPkgs   []ExtPkg
-	ExtraDecl string // extra package-level declarations (hostile identifiers)
-	ExtDecl   map[string]string // extra declarations per sibling package directory
-	Dynamic   bool   // all needed types carry identity; runnable
-	InvMode   string // how the static checks invoke the generator: "" (by position), "one" (all files in one run), "per" (one run per file), "pair" (one run over PairWith's files, then this package's), "first" (generated by its partner's run)
-	PairWith  string
-	ExtraWireFiles map[string]string // wire family: further wire files written verbatim ({{PKG}} = import path of the program); set aside with the others
-	WireLocalHelper bool // wire family: one provider is wrapped by a function declared in wire.go itself
-	DotImport string // Dir of a sibling package the declaration files import with a dot
-	Parens    bool   // set references and provider expressions are written in parentheses
-	NoForward bool   // main package gets no helpers for sibling-package types (so it need not import those packages)
-	WireAltAliases bool // wire_sets.go imports every sibling package under another alias than wire.go
-	WireAllInSets  bool // every wire element goes into a named set (wire_sets.go)
-	KessokuAlias string // declaration files import kessoku under this alias (and the package declares an identifier "kessoku")
-	Seed      int64
+	Name            string // package directory / program name
+	PkgName         string // Go package name
+	Types           []*Type
+	Provs           []*Prov
+	Sets            []*SetDef
+	Injectors       []*Injector
+	Files           []string // names of the declaration files (kessoku.go, ...)
+	Features        []string
+	ExtPkgs         []ExtPkg
+	ExtraDecl       string            // extra package-level declarations (hostile identifiers)
+	ExtDecl         map[string]string // extra declarations per sibling package directory
+	Dynamic         bool              // all needed types carry identity; runnable
+	InvMode         string            // how the static checks invoke the generator: "" (by position), "one" (all files in one run), "per" (one run per file), "pair" (one run over PairWith's files, then this package's), "first" (generated by its partner's run)
+	PairWith        string
+	ExtraWireFiles  map[string]string // wire family: further wire files written verbatim ({{PKG}} = import path of the program); set aside with the others
+	WireLocalHelper bool              // wire family: one provider is wrapped by a function declared in wire.go itself
+	DotImport       string            // Dir of a sibling package the declaration files import with a dot
+	Parens          bool              // set references and provider expressions are written in parentheses
+	NoForward       bool              // main package gets no helpers for sibling-package types (so it need not import those packages)
+	WireAltAliases  bool              // wire_sets.go imports every sibling package under another alias than wire.go
+	WireAllInSets   bool              // every wire element goes into a named set (wire_sets.go)
+	KessokuAlias    string            // declaration files import kessoku under this alias (and the package declares an identifier "kessoku")
+	Seed            int64
 }
 
 type ExtPkg struct {
@@ -237,16 +237,16 @@ type Supplier struct {
 
 // Ref is the reference interpretation of one injector.
 type Ref struct {
-	Inj       *Injector
-	Suppliers map[int]Supplier // type id -> supplier
-	Needed    []int            // needed function/value providers in dependency order
-	NeededSet map[int]bool
-	FieldReads []Supplier      // needed field reads
-	Args      []int            // unsupplied needed types (sorted by id), each once
-	HasErr    bool
-	HasAsync  bool
-	Problems  []string // ambiguity / cycle / orphan found while interpreting
-	Deps      map[int][]int // provider id -> provider ids it depends on (direct, through field reads too)
+	Inj        *Injector
+	Suppliers  map[int]Supplier // type id -> supplier
+	Needed     []int            // needed function/value providers in dependency order
+	NeededSet  map[int]bool
+	FieldReads []Supplier // needed field reads
+	Args       []int      // unsupplied needed types (sorted by id), each once
+	HasErr     bool
+	HasAsync   bool
+	Problems   []string      // ambiguity / cycle / orphan found while interpreting
+	Deps       map[int][]int // provider id -> provider ids it depends on (direct, through field reads too)
 }
 
 // structBase returns the struct type id behind t (t itself if KStruct, base if KPtr) or -1.
@@ -455,9 +455,9 @@ func OutH(pid, i int, nonce uint64, args []uint64) uint64 {
 // Eval computes, for a run with the given nonce, the expected argument
 // identities of every needed provider, its outputs and the result identity.
 type Expect struct {
-	Args   map[int][]uint64 // provider id -> expected argument identities
-	Outs   map[int][]uint64
-	Result uint64
+	Args    map[int][]uint64 // provider id -> expected argument identities
+	Outs    map[int][]uint64
+	Result  uint64
 	ArgVals map[int]uint64 // injector argument type id -> identity passed
 }
 
